@@ -1,17 +1,25 @@
 package checks
 
 import (
+	"crypto/x509"
 	"crypto/x509/pkix"
 	"encoding/asn1"
 	"errors"
 	"fmt"
 	"math/big"
 	"math/rand"
+	"os"
+	"os/exec"
+	"path/filepath"
 	"time"
 
 	"github.com/gr33nbl00d/caddy-revocation-validator/crl/crlstore"
 
+	"verif/harness/derbuild"
+	"verif/harness/origin"
+	"verif/harness/pki"
 	"verif/harness/vk"
+	"verif/harness/world"
 )
 
 // C09 — fail closed: a storage failure during lookup is never reported as "not revoked".
@@ -51,6 +59,7 @@ func C09(c *vk.Ctx) {
 	c.Set("transitions", trans)
 	// part 2
 	walks += c09Validator(c, rng)
+	walks += c09DamagedOpen(c, rng)
 	c.Set("traces_validated_against_impl", int64(walks))
 	c.Set("spec", "CrlStore.tla with Faulty = TRUE (CloseUnder, Corrupt(k)): invariant FailClosed; Revocation.tla verdict composition (any lookup error => handshake rejected)")
 	c.Set("rule", "store level: one case = one edge of the fault-enabled store graph executed on the real backend, all lookups compared; validator level: one case = (backend, fault class, listed/unlisted certificate, strict/lenient) with the fault injected underneath a provisioned validator; violation iff a fault was injected, the specification says 'error', and the real answer is 'not revoked' / the handshake is accepted")
@@ -244,4 +253,87 @@ func corruptAllEntries(st crlstore.CRLStore, serial *big.Int, decodable bool) er
 		}
 	}
 	return fmt.Errorf("record for serial %v not found in %T", serial, st)
+}
+
+// c09DamagedOpen: a large CDP CRL is stored on disk (several table files), the instance is cleaned up, then - for every table file
+// of the store - a copy of work_dir loses that file and a new validator (strict) is provisioned on it. Certificates listed in the
+// CRL are presented: each handshake is denied (revoked, or an error because the store does not open), never accepted. This is
+// CrlStore.tla's OpenDamaged seen through the validator: what is left of a damaged database never answers "not revoked".
+func c09DamagedOpen(c *vk.Ctx, rng *rand.Rand) int {
+	n := c.Pick(260000, 600000)
+	org := origin.New()
+	defer org.Close()
+	ca := pki.NewCA(pki.CAOpts{Name: "Damaged Store CA", Serial: 960})
+	now := time.Now().Add(-time.Minute).UTC().Truncate(time.Second)
+	nu := now.Add(24 * time.Hour)
+	doc := &derbuild.Doc{Version: 2, Alg: derbuild.Algs["ecdsaWithSHA256"], IssuerRaw: ca.Cert.RawSubject, ThisUpdate: now, NextUpdate: &nu, ListPresent: true, ExtsPresent: true}
+	base := new(big.Int).Lsh(big.NewInt(0x61), 72)
+	doc.Entries = make([]derbuild.Entry, n)
+	for i := range doc.Entries {
+		doc.Entries[i] = derbuild.Entry{Serial: new(big.Int).Add(base, big.NewInt(int64(i)*7919)), Date: now}
+	}
+	b, err := doc.Build(ca.Key)
+	if err != nil {
+		c.Infra("build large crl: %v", err)
+	}
+	org.SetBody("/damaged.crl", b.DER)
+	const probes = 24
+	var chains [][][]*x509.Certificate
+	for i := 0; i < probes; i++ {
+		idx := (i*n)/probes + rng.Intn(n/probes)
+		leaf := ca.Leaf(pki.LeafOpts{CN: fmt.Sprintf("listed %d", idx), Serial: doc.Entries[idx].Serial, CDP: []string{org.URL + "/damaged.crl"}})
+		chains = append(chains, pki.Chain(leaf.Cert, ca))
+	}
+	w, err := world.New(world.Cfg{Mode: "crl_only", Storage: "disk", Sig: "none", Fetch: "fetch_actively", CdpStrict: true, Interval: "1h"})
+	if err != nil {
+		c.Infra("world: %v", err)
+	}
+	defer w.Destroy()
+	if err := w.Provision(); err != nil {
+		c.Infra("provision: %v", err)
+	}
+	if r := w.HandshakeTimeout(chains[0], 120*time.Second); r.Verdict != "revoked" {
+		c.Drift("damaged-open-setup:" + r.Verdict)
+		return 0
+	}
+	w.Cleanup()
+	org.SetBody("/damaged.crl", []byte("gone")) // nothing can be fetched again
+	tables, _ := filepath.Glob(filepath.Join(w.WorkDir, "*", "*.ldb"))
+	c.Set("damaged_open_tables", int64(len(tables)))
+	cases := 0
+	for ti, table := range tables {
+		if c.Violations() > 6 {
+			break
+		}
+		sandbox, _ := os.MkdirTemp("", "verif.damaged.")
+		img := filepath.Join(sandbox, "work")
+		if err := exec.Command("cp", "-r", w.WorkDir, img).Run(); err != nil {
+			c.Infra("copy work_dir: %v", err)
+		}
+		rel, _ := filepath.Rel(w.WorkDir, table)
+		os.Remove(filepath.Join(img, rel))
+		w2 := &world.World{Sandbox: sandbox, WorkDir: img, Cfg: world.Cfg{Mode: "crl_only", Storage: "disk", Sig: "none", Fetch: "fetch_actively", CdpStrict: true, Interval: "1h"}}
+		perr := w2.Provision()
+		accepted := []int{}
+		verdicts := map[string]int{}
+		if perr == nil {
+			for i, ch := range chains {
+				r := w2.HandshakeTimeout(ch, 60*time.Second)
+				verdicts[r.Verdict]++
+				if r.Verdict == "accept" {
+					accepted = append(accepted, i)
+				}
+			}
+			w2.Cleanup()
+		}
+		cases++
+		c.Eval(fmt.Sprintf("damaged-open|table=%d/%d", ti, len(tables)))
+		if len(accepted) > 0 {
+			c.Violation("validator:disk:table-file-missing-at-open:listed-accepted",
+				fmt.Sprintf("the store of a CRL with %d entries lost one of its %d table files (%s) while the validator was down; after the restart %d of %d certificates that the CRL lists were accepted (strict mode, nothing can be fetched): %v", n, len(tables), filepath.Base(table), len(accepted), probes, verdicts),
+				map[string]any{"entries": n, "tables": len(tables), "removed": filepath.Base(table), "verdicts": verdicts})
+		}
+		os.RemoveAll(sandbox)
+	}
+	return cases
 }
